@@ -208,6 +208,69 @@ pub fn cmd_dfuzz(args: &[String]) -> i32 {
     0
 }
 
+/// lensweep-robust <sites.ndjson> <out.ndjson> <dense_max>: every site of MC_LenSweep (an entry point and a skeleton whose tied
+/// length fields are all set from one L) at EVERY L up to dense_max and at every multiple of 96 and 128 beyond, in-process, under the
+/// observation invariants (no panic, formatting returns, heap bound, remainder is a suffix, slices inside the consumed region)
+pub fn cmd_lensweep_robust(args: &[String]) -> i32 {
+    let sites: Vec<Value> = BufReader::new(std::fs::File::open(&args[0]).expect("open")).lines()
+        .filter_map(|l| serde_json::from_str::<Value>(&l.unwrap()).ok()).collect();
+    let mut out = BufWriter::new(std::fs::File::create(&args[1]).expect("create"));
+    let dense: usize = args.get(2).and_then(|x| x.parse().ok()).unwrap_or(2304);
+    let nthreads = std::thread::available_parallelism().map(|n| n.get()).unwrap_or(4).min(12);
+    let results: Vec<(Vec<Value>, u64)> = std::thread::scope(|sc| {
+        let hs: Vec<_> = (0..nthreads).map(|t| { let sites = &sites; sc.spawn(move || {
+            let mut lines = Vec::new();
+            let mut n = 0u64;
+            for (k, s) in sites.iter().enumerate() {
+                if k % nthreads != t { continue; }
+                let name = s["fn"].as_str().unwrap_or("");
+                let a0 = Args::from_json(s.get("a"));
+                let alen = s["alen"].as_i64().unwrap_or(-1);
+                let lit: Vec<u8> = crate::nums(&s["lit"]);
+                let tail: Vec<u8> = crate::nums(&s["tail"]);
+                let fields: Vec<(usize, usize, usize)> = s["fields"].as_array().map(|v| v.iter().map(|f| (f[0].as_u64().unwrap() as usize, f[1].as_u64().unwrap() as usize, f[2].as_u64().unwrap() as usize)).collect()).unwrap_or_default();
+                let fixed = s["fixed"].as_u64().unwrap_or(0) as usize;
+                let (lmin, lmax) = (s["lmin"].as_u64().unwrap_or(0) as usize, s["lmax"].as_u64().unwrap_or(0) as usize);
+                let mut offenders = 0;
+                let mut classes: HashMap<String, u64> = HashMap::new();
+                for l in lmin..=lmax {
+                    if l > dense && l % 96 != 0 && l % 128 != 0 && l != lmax { continue; }
+                    let mut input = lit.clone();
+                    for (pos, w, d) in &fields {
+                        let x = l - d;
+                        for j in 0..*w { input[pos - 1 + j] = (x >> (8 * (w - 1 - j))) as u8; }
+                    }
+                    let nfill = l - fixed;
+                    input.extend((0..nfill).map(|j| (93 + j * 7) as u8));
+                    input.extend_from_slice(&tail);
+                    let mut a = a0.clone();
+                    if alen >= 0 { a.len = l - alen as usize; }
+                    if let Some(o) = calls::call(name, &a, &input) {
+                        n += 1;
+                        *classes.entry(o.res["k"].as_str().unwrap_or("").to_string()).or_insert(0) += 1;
+                        if let Some(bad) = robust_reason(&o, input.len()) {
+                            offenders += 1;
+                            if offenders <= 3 {
+                                let mut e = event(&format!("ls:{}:{}:{}", k + 1, name, l), name, &a, &input, &o);
+                                e["kind"] = json!("offender"); e["broken"] = json!(bad); e["site"] = json!(k + 1); e["L"] = json!(l);
+                                lines.push(e);
+                            }
+                        }
+                    }
+                }
+                lines.push(json!({"kind": "summary", "site": k + 1, "fn": name, "classes": classes, "offenders": offenders}));
+            }
+            (lines, n)
+        })}).collect();
+        hs.into_iter().map(|h| h.join().unwrap()).collect()
+    });
+    let mut total = 0;
+    for (lines, n) in results { total += n; for l in lines { writeln!(out, "{}", l).unwrap(); } }
+    out.flush().unwrap();
+    eprintln!("lensweep-robust: {} calls", total);
+    0
+}
+
 fn arg_variants(name: &str) -> Vec<Args> {
     let base = Args { len: 0, ext: false, ct: 22, ver: 0x0303, sub: "dh".into() };
     let mut v = vec![];
